@@ -28,6 +28,7 @@ def run_case(
     audit_log: Optional[str] = None,
     outdir: Optional[str] = None,
     paths: Optional[Tuple[str, str]] = None,
+    env_extra: Optional[Dict[str, str]] = None,
 ) -> Tuple[cli.CliResult, str, str, str]:
     """Materialize the case (unless `paths` = already written (ini, ods)) and run its entry point; returns (result, ini, ods, outdir)."""
     folder = folder or work_dir()
@@ -47,9 +48,9 @@ def run_case(
         prefix=case.get("prefix"),
         extra=extra_args,
     )
-    env_extra = {}
+    env_extra = dict(env_extra or {})
     if case["country"] == "generic":
-        env_extra = {"CURRENCY_CODE": "usd", "LONG_TERM_CAPITAL_GAINS": str(case.get("long_term_days", 365))}
+        env_extra.update({"CURRENCY_CODE": "usd", "LONG_TERM_CAPITAL_GAINS": str(case.get("long_term_days", 365))})
     result = cli.run_rp2(case["country"], args, cwd=folder, outdir=outdir, hashseed=hashseed, env_extra=env_extra, audit_log=audit_log)
     return result, ini, ods, outdir
 
@@ -74,6 +75,31 @@ def crash_bucket(text: str) -> Optional[str]:
             break
     where = f"{frames[-1][0]}:{frames[-1][2]}" if frames else "?"
     return f"{exc or 'Exception'}@{where}"
+
+
+def volume_classes(case: Dict[str, Any]) -> set:
+    """Evidence classes for the 'volume' tail of the generator (gen._bulk_tail): sheets beyond the templates' spare rows."""
+    classes = set()
+    expense_rows = 0
+    for spec in case["assets"].values():
+        rows = [r for _, table_rows in spec["tables"] for r in table_rows]
+        if len(rows) >= 60:
+            classes.add("volume_asset_60plus_rows")
+        expense_rows += sum(1 for r in rows if (r["table"] == "out" and r.get("type") in ("fee", "lost")) or (r["table"] == "intra" and r.get("sent") != r.get("received")))
+        expense_rows += sum(1 for r in rows if r["table"] == "in" and r.get("crypto_fee") not in (None, "0"))
+    if expense_rows > 95:
+        classes.add("investment_expense_rows_over_95")
+    return classes
+
+
+def aborted_in(text: str, file_fragment: str) -> Optional[str]:
+    """Crash bucket of a run that died with a traceback passing through the given source file (e.g. a report generator), else
+    None.  Used by the report checks: a generator that aborts shows none of the values the property says it shows."""
+    if "Traceback (most recent call last)" not in text:
+        return None
+    if not any(file_fragment in frame[0] for frame in _FRAME_RE.findall(text)):
+        return None
+    return crash_bucket(text)
 
 
 def schedule_of(case: Dict[str, Any]) -> Dict[str, str]:
